@@ -40,7 +40,13 @@ func normalizeAddrs(addrs []string) ([]string, error) {
 	for i, addr := range addrs {
 
 		// if addr has no port, give it 53
-		if !strings.Contains(addr, ":") {
+		switch {
+		case net.ParseIP(addr) != nil:
+			// Also an IPv6 address, which has colons of its own.
+			addr = net.JoinHostPort(addr, "53")
+		case strings.HasPrefix(addr, "[") && strings.HasSuffix(addr, "]"):
+			addr += ":53"
+		case !strings.Contains(addr, ":"):
 			addr += ":53"
 		}
 
